@@ -262,6 +262,12 @@ fn factor_impl(
         factors.push(n);
         return;
     }
+    // If an interruption was already requested, do not start any method:
+    // P-1 and the single-word methods never poll it.
+    if prefs.abort() {
+        factors.push(n);
+        return;
+    }
     // Apply automatic strategy.
     let alg_real = match alg {
         Algo::Auto => {
